@@ -139,6 +139,11 @@ pub fn run(a: &Args) -> Report {
     let mut total = Report::default();
     total.count("corpus_entries_in_scope", idx.len() as u64);
     let phantomish: Vec<usize> = idx.iter().copied().filter(|j| es[*j].text.contains("PhantomData")).collect();
+    // different Rust types whose descriptions are equal (`Option<Box<u8>>` / `Option<u8>`): same deep canonical text, another identity
+    let mut by_deep: std::collections::HashMap<&'static str, Vec<usize>> = std::collections::HashMap::new();
+    for j in &idx {
+        by_deep.entry(es[*j].deep).or_default().push(*j);
+    }
     let body = run_parallel(&cfg, |i, rep| {
         if i >= n_individual + n_individual / 4 {
             // One registry, many thousands of registrations: whatever the registry carries from call to call
@@ -206,6 +211,19 @@ pub fn run(a: &Args) -> Report {
             if !phantomish.is_empty() && rng.flip() {
                 let at = rng.below(batch.len());
                 batch.insert(at, *rng.pick(&phantomish));
+            }
+            // a twin of a member (equal description, other identity) early in the batch, other types after it
+            if rng.flip() {
+                let k = rng.below(batch.len());
+                if let Some(tw) = by_deep.get(es[batch[k]].deep) {
+                    let others: Vec<usize> = tw.iter().copied().filter(|j| (es[*j].did)() != (es[batch[k]].did)()).collect();
+                    if !others.is_empty() {
+                        let t = *rng.pick(&others);
+                        batch.insert(rng.below(k + 1), t);
+                        batch.push(*rng.pick(&idx));
+                        rep.count("batches_with_twin_descriptions", 1);
+                    }
+                }
             }
             let metas: Vec<scale_info::MetaType> = batch.iter().map(|j| (es[*j].meta)()).collect();
             let mut r = Registry::new();
